@@ -265,27 +265,31 @@ structure Cfg (ks : Bool) (s : Sim α) : Prop where
   hyb : s.hybrid = true → ks = true
   mode : s.tree = false ∨ ks = false
 
-theorem removeParticle_notree (flag : α → α) (s : Sim α) (ks : Bool) (i : Nat)
+theorem removeParticle_notree (v : RmVariant) (flag : α → α) (s : Sim α) (ks : Bool) (i : Nat)
     (hi : i < s.ps.length) (hc : Cfg ks s) (ht : s.tree = false) :
-    ∃ s', removeParticle flag s (i : Int) ks = (s', true) ∧ s'.ps = rmList ks s.ps i ∧
+    ∃ s', removeParticle v flag s (i : Int) ks = (s', true) ∧ s'.ps = rmList ks s.ps i ∧
       s'.tree = s.tree ∧ s'.nVar = s.nVar ∧ s'.hybrid = s.hybrid := by
   have hks : (ks || s.hybrid) = ks := by
     cases hk : ks <;> cases hh : s.hybrid <;> simp
     have := hc.hyb hh; simp [hk] at this
+  have hr : (decide ((i : Int) ≥ (s.ps.length : Int)) || decide ((i : Int) < 0)) = false := by
+    simp; omega
   unfold removeParticle
-  simp only [hks]
+  simp only [hks, hr, Bool.and_false, Bool.false_eq_true, if_false]
   by_cases h1 : s.ps.length = 1
   · have hi0 : i = 0 := by omega
     subst hi0
     obtain ⟨a, ha⟩ := List.length_eq_one_iff.mp h1
-    refine ⟨{ s with ps := [] }, ?_, ?_, rfl, rfl, rfl⟩
-    · simp [h1]
+    have hN1 : (((1 : Nat) : Int) == 1) = true := rfl
+    refine ⟨{ s with ps := []
+                     nActive := if v.lastResetsNActive && s.nActive > 0 then 0 else s.nActive
+                     tree := if v.lastDeletesTree then false else s.tree }, ?_, ?_, ?_, rfl, rfl⟩
+    · simp only [h1, hN1, if_true]
     · cases ks <;> simp [rmList, ha]
+    · simp [ht]
   · have hN : ((s.ps.length : Int) == 1) = false := by
       rw [beq_eq_false_iff_ne]; omega
-    have hr : (decide ((i : Int) ≥ (s.ps.length : Int)) || decide ((i : Int) < 0)) = false := by
-      simp; omega
-    simp only [hN, hr, hc.nvar, Bool.false_eq_true, if_false, bne_self_eq_false, ht]
+    simp only [hN, hc.nvar, Bool.false_eq_true, if_false, bne_self_eq_false, ht, Bool.and_false]
     cases ks
     · simp only [Bool.false_eq_true, if_false]
       cases hl : s.ps.getLast? with
@@ -300,9 +304,9 @@ theorem removeParticle_notree (flag : α → α) (s : Sim α) (ks : Bool) (i : N
       refine ⟨_, rfl, ?_, rfl, rfl, rfl⟩
       simp [rmList]
 
-theorem removeParticle_tree (flag : α → α) (s : Sim α) (i : Nat)
+theorem removeParticle_tree (v : RmVariant) (flag : α → α) (s : Sim α) (i : Nat)
     (hi : i < s.ps.length) (h2 : 2 ≤ s.ps.length) (hc : Cfg false s) (ht : s.tree = true) :
-    ∃ s', removeParticle flag s (i : Int) false = (s', true) ∧ s'.ps = s.ps.modify i flag ∧
+    ∃ s', removeParticle v flag s (i : Int) false = (s', true) ∧ s'.ps = s.ps.modify i flag ∧
       s'.tree = s.tree ∧ s'.nVar = s.nVar ∧ s'.hybrid = s.hybrid := by
   have hh : s.hybrid = false := by
     cases h : s.hybrid
@@ -314,7 +318,7 @@ theorem removeParticle_tree (flag : α → α) (s : Sim α) (i : Nat)
   have hr : (decide ((i : Int) ≥ (s.ps.length : Int)) || decide ((i : Int) < 0)) = false := by
     simp; omega
   simp only [hh, Bool.or_false, hN, hr, hc.nvar, Bool.false_eq_true, if_false,
-    bne_self_eq_false, ht, if_true]
+    bne_self_eq_false, ht, if_true, Bool.and_false]
   exact ⟨_, rfl, by simp, rfl, rfl, rfl⟩
 
 section step
@@ -337,13 +341,13 @@ theorem modify_map_ident (flag : α → α) (hflag : ∀ a, ident (flag a) = ide
   | some a => by_cases h : i = j <;> simp [h, hflag]
 
 /-- one accepted removal + fix-up (either half of collision.c:394-485) -/
-theorem removeAndFix_spec [DecidableEq ι] (flag : α → α) (hflag : ∀ a, ident (flag a) = ident a)
+theorem removeAndFix_spec [DecidableEq ι] (v : RmVariant) (flag : α → α) (hflag : ∀ a, ident (flag a) = ident a)
     (ks : Bool) (s : Sim α) (hc : Cfg ks s) (hn : (ids ident s).Nodup)
     (hlen : s.tree = true → 2 ≤ s.ps.length)
     (idx : Int) (x : ι) (hx : denote (ids ident s) idx = some x)
     (cur : Int) (rest : List (Coll G)) (ds : List (ι × ι)) (dead : List ι)
     (htr : List.Forall₂ (Tracks (ids ident s) dead) rest ds) :
-    ∃ s' cur' rest', removeAndFix flag ks s idx cur rest = (s', cur', rest') ∧
+    ∃ s' cur' rest', removeAndFix v flag ks s idx cur rest = (s', cur', rest') ∧
       Cfg ks s' ∧ s'.tree = s.tree ∧ (ids ident s').Nodup ∧ s'.ps.length ≤ s.ps.length ∧
       (s.tree = true → s'.ps.length = s.ps.length) ∧
       List.Forall₂ (Tracks (ids ident s') (dead ++ [x])) rest' ds ∧
@@ -354,7 +358,7 @@ theorem removeAndFix_spec [DecidableEq ι] (flag : α → α) (hflag : ∀ a, id
   subst hidx
   cases ht : s.tree
   · -- no tree
-    obtain ⟨s', hrm, hps, htree, hnv, hhy⟩ := removeParticle_notree flag s ks i hi' hc ht
+    obtain ⟨s', hrm, hps, htree, hnv, hhy⟩ := removeParticle_notree v flag s ks i hi' hc ht
     have hids : ids ident s' = rmList ks (ids ident s) i := by
       simp only [ids, hps, rmList_map]
     have hlen' : s'.ps.length = s.ps.length - 1 := by rw [hps, rmList_length ks _ i hi']
@@ -395,7 +399,7 @@ theorem removeAndFix_spec [DecidableEq ι] (flag : α → α) (hflag : ∀ a, id
       · rw [ht] at h; cases h
       · exact h
     subst hks
-    obtain ⟨s', hrm, hps, htree, hnv, hhy⟩ := removeParticle_tree flag s i hi' (hlen ht) hc ht
+    obtain ⟨s', hrm, hps, htree, hnv, hhy⟩ := removeParticle_tree v flag s i hi' (hlen ht) hc ht
     have hids : ids ident s' = ids ident s := by
       simp only [ids, hps]; exact modify_map_ident ident flag hflag _ _
     refine ⟨s', cur, rest.map (voidIfNames (i : Int)), ?_, ?_, ?_, ?_, ?_, ?_, ?_, ?_, ?_⟩
@@ -484,21 +488,21 @@ theorem two_le_of_denote {l : List ι} {p q : Int} {a b : ι} (hab : a ≠ b)
   omega
 
 /-- a void entry (or one naming a removed identity) is skipped: collision.c:389 -/
-theorem processOne_void (flag : α → α) (res : Sim α → Coll G → Sim α × Nat) (ks : Bool)
+theorem processOne_void (v : RmVariant) (flag : α → α) (res : Sim α → Coll G → Sim α × Nat) (ks : Bool)
     (s : Sim α) (c : Coll G) (rest : List (Coll G)) (h1 : c.p1 = -1) :
-    processOne flag res ks s c rest = (s, rest, none) := by
+    processOne v flag res ks s c rest = (s, rest, none) := by
   unfold processOne; simp [h1]
 
 /-- a live entry: the resolver is called with exactly the two identities the entry denoted,
     the requested identities are removed, and every later entry keeps tracking its pair -/
-theorem processOne_live [DecidableEq ι] (flag : α → α) (hflag : ∀ a, ident (flag a) = ident a)
+theorem processOne_live [DecidableEq ι] (v : RmVariant) (flag : α → α) (hflag : ∀ a, ident (flag a) = ident a)
     (res : Sim α → Coll G → Sim α × Nat) (hres : ResOK ident res)
     (ks : Bool) (s : Sim α) (hc : Cfg ks s) (hn : (ids ident s).Nodup)
     (c : Coll G) (a b : ι) (hab : a ≠ b)
     (h1 : denote (ids ident s) c.p1 = some a) (h2 : denote (ids ident s) c.p2 = some b)
     (rest : List (Coll G)) (ds : List (ι × ι)) (dead : List ι)
     (htr : List.Forall₂ (Tracks (ids ident s) dead) rest ds) :
-    ∃ s' rest' pa pb, processOne flag res ks s c rest =
+    ∃ s' rest' pa pb, processOne v flag res ks s c rest =
         (s', rest', some ⟨c, some pa, some pb, (res s c).2⟩) ∧
       ident pa = a ∧ ident pb = b ∧
       Cfg ks s' ∧ s'.tree = s.tree ∧ (ids ident s').Nodup ∧
@@ -528,13 +532,13 @@ theorem processOne_live [DecidableEq ι] (flag : α → α) (hflag : ∀ a, iden
   simp only [hcond, if_true, hrs, hla, hlb]
   by_cases o1 : (out &&& 1 != 0) = true
   · obtain ⟨s2, p2, rest2, e2, hc2, ht2, hn2, hle2, hlt2, htr2, hcur2, hst2⟩ :=
-      removeAndFix_spec ident flag hflag ks s1 hc1 hn1 hlen1 c.p1 a h1' c.p2 rest ds dead htr1
+      removeAndFix_spec ident v flag hflag ks s1 hc1 hn1 hlen1 c.p1 a h1' c.p2 rest ds dead htr1
     have hb2 : denote (ids ident s2) p2 = some b := hcur2 b (Ne.symm hab) h2'
     by_cases o2 : (out &&& 2 != 0) = true
     · have hlen2 : s2.tree = true → 2 ≤ s2.ps.length := by
         intro h; rw [ht2] at h; rw [hlt2 h]; exact hlen1 h
       obtain ⟨s3, p3, rest3, e3, hc3, ht3, hn3, hle3, hlt3, htr3, hcur3, hst3⟩ :=
-        removeAndFix_spec ident flag hflag ks s2 hc2 hn2 hlen2 p2 b hb2 p2 rest2 ds (dead ++ [a]) htr2
+        removeAndFix_spec ident v flag hflag ks s2 hc2 hn2 hlen2 p2 b hb2 p2 rest2 ds (dead ++ [a]) htr2
       have hrem : remOf a b out = [a, b] := by unfold remOf; rw [if_pos o1, if_pos o2]; rfl
       refine ⟨s3, rest3, pa, pb, ?_, hpa, hpb, hc3, by rw [ht3, ht2, hrt], hn3, ?_, ?_⟩
       · simp only [o1, o2, if_true, e2, e3]
@@ -551,7 +555,7 @@ theorem processOne_live [DecidableEq ι] (flag : α → α) (hflag : ∀ a, iden
         rw [hrem]; exact this
   · by_cases o2 : (out &&& 2 != 0) = true
     · obtain ⟨s3, p3, rest3, e3, hc3, ht3, hn3, hle3, hlt3, htr3, hcur3, hst3⟩ :=
-        removeAndFix_spec ident flag hflag ks s1 hc1 hn1 hlen1 c.p2 b h2' c.p2 rest ds dead htr1
+        removeAndFix_spec ident v flag hflag ks s1 hc1 hn1 hlen1 c.p2 b h2' c.p2 rest ds dead htr1
       have hrem : remOf a b out = [b] := by unfold remOf; rw [if_neg o1, if_pos o2]; rfl
       refine ⟨s3, rest3, pa, pb, ?_, hpa, hpb, hc3, by rw [ht3, hrt], hn3, ?_, ?_⟩
       · simp only [o1, o2, if_true, e3, Bool.false_eq_true, if_false]
@@ -581,16 +585,16 @@ inductive Run : List ι → List (ι × ι) → List (Call α G) → List ι →
       d.1 ∉ dead → d.2 ∉ dead → k.a = some pa → k.b = some pb → ident pa = d.1 → ident pb = d.2 →
       Run (dead ++ remOf d.1 d.2 k.out) ds calls dead' → Run dead (d :: ds) (k :: calls) dead'
 
-theorem processLoop_spec [DecidableEq ι] (flag : α → α) (hflag : ∀ a, ident (flag a) = ident a)
+theorem processLoop_spec [DecidableEq ι] (v : RmVariant) (flag : α → α) (hflag : ∀ a, ident (flag a) = ident a)
     (res : Sim α → Coll G → Sim α × Nat) (hres : ResOK ident res) (ks : Bool)
     (ds : List (ι × ι)) (hdist : ∀ d ∈ ds, d.1 ≠ d.2) :
     ∀ (s : Sim α) (pend : List (Coll G)) (dead : List ι), Cfg ks s → (ids ident s).Nodup →
       List.Forall₂ (Tracks (ids ident s) dead) pend ds →
-      ∃ rem, Run ident dead ds (processLoop flag res ks s pend).2 (dead ++ rem) ∧
-        IdsAfter ks s.tree (ids ident s) rem (ids ident (processLoop flag res ks s pend).1) ∧
-        (ids ident (processLoop flag res ks s pend).1).Nodup ∧
-        Cfg ks (processLoop flag res ks s pend).1 ∧
-        (processLoop flag res ks s pend).1.tree = s.tree := by
+      ∃ rem, Run ident dead ds (processLoop v flag res ks s pend).2 (dead ++ rem) ∧
+        IdsAfter ks s.tree (ids ident s) rem (ids ident (processLoop v flag res ks s pend).1) ∧
+        (ids ident (processLoop v flag res ks s pend).1).Nodup ∧
+        Cfg ks (processLoop v flag res ks s pend).1 ∧
+        (processLoop v flag res ks s pend).1.tree = s.tree := by
   induction ds with
   | nil =>
     intro s pend dead hc hn htr
@@ -609,7 +613,7 @@ theorem processLoop_spec [DecidableEq ι] (flag : α → α) (hflag : ∀ a, ide
       have hd' : ∀ d ∈ ds', d.1 ≠ d.2 := fun x hx => hdist x (List.mem_cons_of_mem _ hx)
       rcases hhead with ⟨hdd, h1, h2⟩ | ⟨ha, hb, h1, h2⟩
       · -- void entry
-        have hp := processOne_void flag res ks s c rest h1
+        have hp := processOne_void v flag res ks s c rest h1
         obtain ⟨rem, hrun, hids, hnd, hcf, htf⟩ := ih hd' s rest dead hc hn htail
         refine ⟨rem, ?_, ?_, ?_, ?_, ?_⟩
         · rw [processLoop]; simp only [hp]; exact Run.skip hdd hrun
@@ -618,7 +622,7 @@ theorem processLoop_spec [DecidableEq ι] (flag : α → α) (hflag : ∀ a, ide
         · rw [processLoop]; simp only [hp]; exact hcf
         · rw [processLoop]; simp only [hp]; exact htf
       · obtain ⟨s', rest', pa, pb, hp, hpa, hpb, hc', ht', hn', htr', hids'⟩ :=
-          processOne_live ident flag hflag res hres ks s hc hn c d.1 d.2
+          processOne_live ident v flag hflag res hres ks s hc hn c d.1 d.2
             (hdist d (List.mem_cons_self)) h1 h2 rest ds' dead htail
         obtain ⟨rem, hrun, hids, hnd, hcf, htf⟩ := ih hd' s' rest' _ hc' hn' htr'
         refine ⟨remOf d.1 d.2 (res s c).2 ++ rem, ?_, ?_, ?_, ?_, ?_⟩
